@@ -1028,6 +1028,10 @@ class Verifier(Exec):
             k = const('k!', INT)
             self.ctx.assume(forall([k], implies(and_(le(ZERO, k), lt(k, n)), and_(le(ZERO, select(select(h, a), k)), le(select(select(h, a), k), I(0x10FFFF)))), [select(select(h, a), k)]))
             self.trusted.add('[]rune(string): length and rune-range facts only')
+            if 'nrunes' in self.specs.specfuncs:
+                h8_ = self.heap_get(st, 'HS:uint8', arr(ARR_II))
+                self.ctx.declare_fun('sf:nrunes', [ARR_II, INT, INT], INT)
+                self.ctx.assume(eq(n, app('sf:nrunes', (select(h8_, x.arr), x.off, x.len), INT)))
             return SliceV(a, ZERO, n, n, e)
         if isinstance(x, T) and x.sort == INT and self.prog.is_intlike(dst):
             return self.fit(st, x, dst, 'conv')
@@ -1538,6 +1542,8 @@ class Verifier(Exec):
         saved_alloc0, saved_oldenv = self.alloc0, self.old_env
         self.alloc0_call = alloc_before
         for cl in spec.ensures:
+            if cl.props and 'trusted' in cl.props:
+                self.trusted.add('clause assumed, not proved: %s ensures %s' % (short_fn(callee), cl.text))
             ev = SpecEval(self, st, env2, pre_state, 'post of %s' % callee)
             ev.no_expand = spec.trusted
             ev.fresh_base = (lambda ab: (lambda: ab))(alloc_before)
@@ -2889,6 +2895,11 @@ class Verifier(Exec):
         ts_ = [SpecEval(self, st, env, self.old, cl.src).boolean(cl.expr) for cl in spec.ensures]
         for i, cl in enumerate(spec.ensures):
             t = ts_[i]
+            if cl.props and 'trusted' in cl.props:
+                # ensures[trusted]: a clause about the environment (e.g. what a regular expression can match) that
+                # callers may rely on but that is not proved here; listed in the trusted base
+                self.trusted.add('clause assumed, not proved: %s ensures %s' % (short_fn(self.fname), cl.text))
+                continue
             self.oblige(st, 'post', '%d@ret%d' % (i, idx), t, {'clause': cl.text, 'results': vals}, cl.props)
         if self.opts.get('shape') is not None:
             for i, cl in enumerate(getattr(spec, 'bensures', [])):
